@@ -631,6 +631,7 @@ func (c *Channel) processDeferredQueue(t int64) bool {
 		if err != nil {
 			goto exit
 		}
+		verifPoint("scan-deferred:after-pop")
 		c.put(msg)
 	}
 
@@ -668,6 +669,7 @@ func (c *Channel) processInFlightQueue(t int64) bool {
 		if ok {
 			client.TimedOutMessage()
 		}
+		verifPoint("scan-inflight:after-pop")
 		c.put(msg)
 	}
 
